@@ -330,11 +330,13 @@ fn mid(x: i32) -> i32 { return leaf(x + 1) + leaf(x); }
 fn other(x: u32) -> u32 { gb = gb * x + 1u; return gb; }
 fn unused_helper(x: i32) -> i32 { return x - 1; }
 @compute @workgroup_size(1)
-fn first() { oi[0] = mid(ii[0]); oi[1] = ga; }
+fn first() { oi[0] = mid(ii[0]); }
 @compute @workgroup_size(2)
 fn second(@builtin(local_invocation_index) li: u32) { ou[0] = other(iu[0]) + other(3u); wa[li] = 4; extra[0] = wa[li] + leaf(2); }
 @compute @workgroup_size(1)
 fn third() { of_[0] = if_[0] + 1.5; }
+@compute @workgroup_size(1)
+fn fourth() { oi[1] = ga + unused_helper(ii[1]); }
 """, ("small", "boundary"))
 
 prog("ops_i32", """
